@@ -215,16 +215,24 @@ def topoSort (m : LMap) (revisions : List Id) (heads : List Id) : Except Err (Li
 
 /-! ## collecting -/
 
+/-- `get_revisions(<rows of the version table>)`; a row that resolves to `None` trips `is_revision` -/
+def resolveRows (m : LMap) (rows : List Id) : Except Err (List Id) := do
+  let cur ← getRevisionsMany m rows
+  cur.mapM (fun r => match r with | some i => pure i | none => throw Err.assertion)
+
+/-- the set part of `_collect_upgrade_revisions(inclusive=False, implicit_base=True)`:
+    `required_node_set - current_node_set` -/
+def upgradeNeeds (m : LMap) (rows : List Id) (targets : List Id) : Except Err (List Id × List Id) := do
+  let anc ← m.ancestorsCheck targets
+  let cur ← resolveRows m rows
+  let curAnc ← iterCheck m.normDownOf (closureFuel m.normDownOf m.ids cur) cur cur []
+  pure ((dedupe (anc ++ targets)).filter (· ∉ curAnc ++ cur), cur)
+
 /-- `_collect_upgrade_revisions(upper=target, lower=rows, inclusive=False, implicit_base=True)` -/
 def collectUpgrade (m : LMap) (rows : List Id) (target : String) : Except Err (List Id × List Id) := do
   let targets ← parseUpgradeTarget m rows target
-  let anc ← m.ancestorsCheck targets
-  let required := dedupe (anc ++ targets)
-  let cur ← getRevisionsMany m rows
-  let cur ← cur.mapM (fun r => match r with | some i => pure i | none => throw .assertion)
-  let curAnc ← iterCheck m.normDownOf (closureFuel m.normDownOf m.ids cur) cur cur []
-  let current := curAnc ++ cur
-  pure (required.filter (· ∉ current), targets)
+  let (needs, _) ← upgradeNeeds m rows targets
+  pure (needs, targets)
 
 /-- `ScriptDirectory._upgrade_revs`: the plan, first migration first -/
 def upgradeRevs (m : LMap) (rows : List Id) (target : String) : Except Err (List Id) := do
@@ -232,26 +240,31 @@ def upgradeRevs (m : LMap) (rows : List Id) (target : String) : Except Err (List
   let sorted ← topoSort m needs targets
   pure sorted.reverse
 
-/-- `_collect_downgrade_revisions(upper=rows, lower=target, inclusive=False, implicit_base=False)` -/
-def collectDowngrade (m : LMap) (rows : List Id) (target : String) : Except Err (List Id × List Id) := do
-  let (label, tgt) ← parseDowngradeTarget m rows target
+/-- the roots of a downgrade: the revisions that are removed first -/
+def downgradeRoots (m : LMap) (label : Option String) (tgt : Option Id) : Except Err (List Id) := do
   let roots0 : List Id := match tgt with
     | none => (m.keys.filter (fun k => (m.downOf k.2).isEmpty)).map (·.2)
     | some t => m.nextrev t
-  let roots ← match label with
-    | some l =>
-      if !l.isEmpty && roots0.length > 1 then do
-        let br ← resolveBranch m resolveFuel l
-        let anc := match br with | some b => m.ancestorsNoDeps [b] | none => []
-        let rs := dedupe (roots0.filter (· ∈ anc))
-        if rs.isEmpty then throw .revisionError else pure rs
-      else pure roots0
-    | none => pure roots0
-  let heads ← getRevisionsMany m rows
-  let heads ← heads.mapM (fun r => match r with | some i => pure i | none => throw .assertion)
-  let desc := m.descendants roots
-  let active := m.ancestors heads
-  let dg := dedupe (desc.filter (· ∈ active))
+  match label with
+  | some l =>
+    if !l.isEmpty && roots0.length > 1 then do
+      let br ← resolveBranch m resolveFuel l
+      let anc := match br with | some b => m.ancestorsNoDeps [b] | none => []
+      let rs := dedupe (roots0.filter (· ∈ anc))
+      if rs.isEmpty then throw .revisionError else pure rs
+    else pure roots0
+  | none => pure roots0
+
+/-- the set part of `_collect_downgrade_revisions`: applied descendants of the roots -/
+def downgradeSet (m : LMap) (roots heads : List Id) : List Id :=
+  dedupe ((m.descendants roots).filter (· ∈ m.ancestors heads))
+
+/-- `_collect_downgrade_revisions(upper=rows, lower=target, inclusive=False, implicit_base=False)` -/
+def collectDowngrade (m : LMap) (rows : List Id) (target : String) : Except Err (List Id × List Id) := do
+  let (label, tgt) ← parseDowngradeTarget m rows target
+  let roots ← downgradeRoots m label tgt
+  let heads ← resolveRows m rows
+  let dg := downgradeSet m roots heads
   match tgt with
   | some t => if dg.isEmpty && t ∉ heads then throw .rangeNotAncestor else pure (dg, heads)
   | none => pure (dg, heads)
